@@ -10,7 +10,7 @@ ENGINES = [
      "kind_free_text": "deviation-bounded enumeration of environment answers on one thread: fault kind/position per handler call, veto positions, map iteration orders; every placement up to the bound is executed on the real code inside a synctest bubble"},
     {"name": "SCHED", "path": "/verif/amc/shim/vsched + /verif/amc/explore + /verif/amc/instr", "serves_properties": ["C04"],
      "kind_free_text": "stateless model checking: source instrumenter (go build -overlay) turns every sync/atomic/go/channel operation into a schedule point of a cooperative scheduler running inside a testing/synctest bubble; DFS over choice lists with iterative deviation bounding, causal zero-cost continuation, conflict-based point reduction, replayable schedules"},
-    {"name": "SEQ", "path": "/verif/amc/kit", "serves_properties": ["C01", "C02", "C03", "C05", "C07", "C14"],
+    {"name": "SEQ", "path": "/verif/amc/kit", "serves_properties": ["C01", "C02", "C03", "C05", "C06", "C07", "C14"],
      "kind_free_text": "sequential explicit-state search: BFS over the states of real machines (successor = fresh instance + replayed shortest path + one operation), enumerated schema spaces, reference predicates"},
 ]
 NOTES = "All checks run the real code of /repo rebuilt from its working tree; exit 0 held / 1 unlisted violation / 2 harness error. known-findings.jsonl lists recorded genuine defects (printed as KNOWN-FINDING) and fixed ones (replayed as regressions)."
@@ -71,5 +71,12 @@ LEVELS = {
         "text": "For every base transition every handler call position receives each fault kind; the mutating call must return, a probe mutation must execute afterwards, panic => Exception active with the message, timeout => Canceled + ErrHandlerTimeout, negotiation fault => nothing moved, final fault => exactly the unfinished activations/deactivations rolled back, parity == activity in every view.",
         "design_ref": "DESIGN.md section 5 C08, section 4.3",
         "note": "Trusted: synctest fake clock; the harness handlers. Struct-reflection handlers are exercised through the ExceptionHandler-embedding binding only.",
+    },
+    "C06": {
+        "engine": "SEQ",
+        "technique": "bounded-exhaustive enumeration of histories x subscription kinds x subscription positions (incl. mid-transition from a final handler) x ctx modes; iff-oracle from the recorded tick history",
+        "text": "Every history up to the depth bound is replayed on a real machine once per (subscription spec, position, ctx mode); after every step the channel/ctx must be closed iff the tick history says its condition has held (or its ctx ended and a transition ran), and a state ctx must be cancelled iff its state's tick moved.",
+        "design_ref": "DESIGN.md section 5 C06",
+        "note": "Trusted: the harness tracer's time samples. WhenQueueEnds and multi-goroutine subscription races beyond the mid-transition window are not enumerated here.",
     },
 }
